@@ -17,6 +17,39 @@ def is_type(name):
     return name == "T"
 
 
+def keyword_variants():
+    """Identifiers that are NOT keywords but look like one: for every keyword of
+    the reference table its case variants (all-lower, all-upper, first letter
+    toggled, capitalised, title case, swapped case), for the underscore
+    keywords the spelling without / with a doubled leading underscore (and the
+    lower-case form of that), and keyword+suffix / prefix+keyword.  C keywords
+    are case-sensitive, so each of these is an ordinary identifier (a type
+    name if typedef'ed)."""
+    out = set()
+    for w in KEYWORDS:
+        k = 0
+        while k < len(w) and not w[k].isalpha():
+            k += 1
+        toggled = w[:k] + w[k:k + 1].swapcase() + w[k + 1:]
+        vs = {w.lower(), w.upper(), toggled, w.capitalize(), w.title(), w.swapcase(),
+              w + "x", w + "_", w + "1", "x" + w, "_" + w, "x_" + w.lstrip("_")}
+        if w.startswith("_"):
+            bare = w.lstrip("_")
+            vs |= {bare, bare.lower(), "_" + bare.lower(), "__" + bare, "__" + bare.lower(),
+                   "_" + bare.upper()}
+        out |= vs
+    return sorted(v for v in out if v not in KEYWORDS)
+
+
+KEYWORD_VARIANTS = keyword_variants()
+_KEYWORD_VARIANT_SET = frozenset(KEYWORD_VARIANTS)
+
+
+def is_type_variants(name):
+    """Every keyword look-alike (and T) is registered as a typedef name."""
+    return name == "T" or name in _KEYWORD_VARIANT_SET
+
+
 # 6.4.4.1 integer-suffix: all 22 valid spellings (+ none)
 INT_SUFFIXES = ["", "u", "U", "l", "L", "ll", "LL",
                 "ul", "uL", "Ul", "UL", "ull", "uLL", "Ull", "ULL",
